@@ -23,7 +23,16 @@ CLAUSES = [
 RULE = ("well-formed multi-channel note sets (<=8 notes, 3 channels, ticks<200, 30% very short notes, abutting notes) with "
         "non-note events x step lists from the defaults and {2,3,4,5,7,12,16,24}; non-trivial = at least two notes or a note shorter than the largest step")
 ASSUMPTIONS = ["model: SCoda.quantise (Model/Quantise.lean), tied by correspondence on the same inputs"]
-STEP_LISTS = [[24, 12, 6, 16, 8, 4], [12], [4], [2, 3], [5, 7], [16, 24], [3], [24], [6, 4], [7], [2]]
+STEP_LISTS = [[24, 12, 6, 16, 8, 4], [12], [4], [2, 3], [5, 7], [16, 24], [3], [24], [6, 4], [7], [2],
+              [8, 8, 12], [6, 4, 6, 9], [12, 12], [4, 6, 4], [9, 6, 9, 4]]      # duplicates, unsorted
+
+
+def gen_steps(rng):
+    """a listed step list, or (30 %) a random one: 1-5 values from 2..24, duplicates and any order allowed"""
+    if rng.random() < 0.3:
+        pool = [2, 3, 4, 5, 6, 7, 8, 9, 12, 16, 18, 24]
+        return [rng.choice(pool) for _ in range(rng.randint(1, 5))]
+    return rng.choice(STEP_LISTS)
 
 
 def candidates(t, steps):
@@ -110,7 +119,7 @@ def generate(ctx):
     rng = ctx.rng
     for i in range(ctx.n(400, 15000)):
         a, notes = G.gen_wf_abs(rng, channels=(0, 1, 2))
-        steps = rng.choice(STEP_LISTS)
+        steps = gen_steps(rng)
         ctx.case((a, steps), len(notes) >= 2 or any(n[3] < max(steps) for n in notes))
         ctx.count("notes:%d" % min(len(notes), 6))
         if len({(n[1]) for n in notes}) < len({(n[0], n[1]) for n in notes}):
